@@ -234,6 +234,7 @@ type Env struct {
 	rdvCh            chan struct{}
 	rdvArrived       atomic.Int32
 	rdvJudge         atomic.Bool
+	nextK            atomic.Int32
 	pfBegan          atomic.Bool
 	pfBase           atomic.Int64
 	PFirstUnreleased atomic.Bool // a parked function gave up waiting: no verdict
@@ -270,6 +271,16 @@ func NewEnv(id int, spec *Spec, scn *Scenario) *Env {
 		e.Ems = append(e.Ems, &RecEmitter{env: e, idx: i})
 	}
 	return e
+}
+
+// NextUnit returns the unit bound to the next evaluation of a "nextmethod"
+// task expression (Spec.NextUnits lists them in source order).
+func (e *Env) NextUnit() int {
+	k := int(e.nextK.Add(1)) - 1
+	if k < len(e.Spec.NextUnits) {
+		return e.Spec.NextUnits[k]
+	}
+	return -1 // evaluated more often than written: the model reports an unknown unit
 }
 
 func (e *Env) pfMember(unit int) bool {
